@@ -89,8 +89,8 @@ func c07ReaderWriter(c *Ctx) {
 			}
 		}
 	}
-	if nRead < 5 {
-		c.Unk("reader#count", "vacuity guard: at least 5 decodes of a verified payload content", "-", fmt.Sprintf("%d found", nRead))
+	if nRead < 3 {
+		c.Unk("reader#count", "vacuity guard: the two verifier methods and the plugin signer decode a verified payload content", "-", fmt.Sprintf("%d found", nRead))
 	}
 	if nWrite < 2 {
 		c.Unk("writer#count", "vacuity guard: both signers marshal envelope.Payload", "-", fmt.Sprintf("%d found", nWrite))
